@@ -374,6 +374,43 @@ void adapter_exec(Ev *ev)
         if (cls(r.code) != 2) { image(ev); obs(ev, -7); touchvec(ev); }
         return;
     }
+    if (ev_is(ev, "default")) {
+        RegisterValue v; memset(&v, 0, sizeof v);
+        RegisterAccess r = register_default(&T, (RegisterHandle)ev->a[0], &v);
+        obs(ev, cls(r.code));
+        if (r.code == REG_ACCESS_SUCCESS) { int ty = tyindex(v.type); obs(ev, ty); if (ty >= 0) putval(ev, ty, v.value); }
+        return;
+    }
+    if (ev_is(ev, "compare")) {
+        RegisterAccess r = register_compare(&T, (RegisterHandle)ev->a[0], (RegisterHandle)ev->a[1]);
+        obs(ev, cls(r.code));
+        return;
+    }
+    if (ev_is(ev, "mcopy")) {
+        RegisterAccess r = register_mcopy(&T, (AreaHandle)ev->a[0], (AreaHandle)ev->a[1]);
+        obs(ev, cls(r.code)); image(ev);
+        return;
+    }
+    if (ev_is(ev, "userinit")) {
+        FE.n = (int)ev->a[0]; FE.k = 0; FE.nseen = 0;
+        for (int i = 0; i < FE.n && i < 64; i++) FE.s[i] = ev->a[1 + i];
+        RegisterAccess r = register_user_init(&T, fe_cb);
+        obs(ev, cls(r.code));
+        if (cls(r.code) != 2) {
+            obs(ev, r.code == REG_ACCESS_SUCCESS ? 0 : (long long)r.address);
+            for (int i = 0; i < FE.nseen; i++) obs(ev, FE.seen[i]);
+        }
+        return;
+    }
+    if (ev_is(ev, "hexstr")) {
+        size_t n = (size_t)ev->a[1];
+        char *str = n ? xblock(n) : xblock0();
+        for (size_t i = 0; i < n; i++) str[i] = (char)ev->a[2 + i];
+        RegisterAccess r = register_set_from_hexstr(&T, (RegisterAddress)ev->a[0], str, n);
+        obs(ev, bcls(r.code)); obs(ev, r.code == REG_ACCESS_SUCCESS ? 0 : (long long)r.address); image(ev);
+        if (n) xfree(str); else xfree0(str);
+        return;
+    }
     if (ev_is(ev, "serve")) {
         int tr = (int)ev->a[0];
         size_t cap = (size_t)ev->a[1], nw = (size_t)ev->a[2];
